@@ -137,3 +137,124 @@ Section Sort.
     constructor; [exact Hx | apply dedupe_from_respects; assumption].
   Qed.
 End Sort.
+
+(* ------------------------------------------------------------------ *)
+(* sort-and-dedupe computes a canonical representative of the SET of its
+   elements up to comparator-equality                                  *)
+From Coq Require Import Sorted.
+
+Section Canon.
+  Context {A : Type} (cmp : A -> A -> comparison).
+  Hypothesis L : lawful cmp.
+
+  Definition covers (u w : list A) : Prop := forall x, In x u -> exists y, In y w /\ ceq cmp x y.
+  Definition clt (x y : A) : Prop := cmp x y = Lt.
+
+  Lemma clt_trans : forall x y z, clt x y -> clt y z -> clt x z.
+  Proof. intros x y z H1 H2. destruct L as [_ [_ T]]. destruct (T x y z) as [_ [_ [T3 _]]]. apply T3; assumption. Qed.
+
+  Lemma clt_ceq_l : forall x x' y, ceq cmp x x' -> clt x y -> clt x' y.
+  Proof. intros x x' y E H. unfold clt in *. rewrite <- (lawful_eq_l cmp L x x' y E). exact H. Qed.
+
+  Lemma clt_ceq_r : forall x y y', ceq cmp y y' -> clt x y -> clt x y'.
+  Proof.
+    intros x y y' E H. unfold clt in *. rewrite <- H. symmetry.
+    apply (cmp_respects cmp L x x y y'); [apply (ceq_refl cmp L) | exact E].
+  Qed.
+
+  Lemma clt_irrefl : forall x y, ceq cmp x y -> ~ clt x y.
+  Proof. intros x y E H. unfold clt, ceq in *. congruence. Qed.
+
+  (* insertion sort: adjacent elements are not decreasing *)
+  Definition nogt (x y : A) : Prop := cmp x y <> Gt.
+
+  Lemma insert_sorted' : forall x l, Sorted nogt l -> Sorted nogt (insert cmp x l).
+  Proof.
+    intros x l. induction 1 as [|y r Hs IH Hd]; simpl; [repeat constructor|].
+    destruct (cmp x y) eqn:E.
+    - constructor; [constructor; assumption | constructor; unfold nogt; rewrite E; discriminate].
+    - constructor; [constructor; assumption | constructor; unfold nogt; rewrite E; discriminate].
+    - constructor; [exact IH|].
+      assert (Hyx : nogt y x) by (unfold nogt; rewrite (cmp_gt_lt cmp L x y E); discriminate).
+      destruct r as [|z r']; simpl; [constructor; exact Hyx|].
+      destruct (cmp x z); constructor; try exact Hyx. inversion Hd; assumption.
+  Qed.
+
+  Lemma isort_sorted' : forall l, Sorted nogt (isort cmp l).
+  Proof. induction l as [|x l IH]; [constructor|]. unfold isort in *. simpl. apply insert_sorted'. exact IH. Qed.
+
+  (* after dedupe: strictly increasing *)
+  Lemma dedupe_from_strict : forall l f, Sorted nogt (f :: l) -> Sorted clt (f :: dedupe_from cmp f l).
+  Proof.
+    induction l as [|y r IH]; intros f Hs; simpl; [repeat constructor|].
+    inversion Hs as [|? ? Hs' Hd]; subst. inversion Hd as [|? ? Hfy]; subst.
+    destruct (is_eq (cmp f y)) eqn:E.
+    - apply is_eq_true in E. apply IH. inversion Hs' as [|? ? Hr Hdy]; subst. constructor; [exact Hr|].
+      destruct r as [|z r']; constructor. inversion Hdy as [|? ? Hyz]; subst. unfold nogt in *.
+      rewrite (lawful_eq_l cmp L f y z E). exact Hyz.
+    - constructor; [apply IH; exact Hs'|]. constructor. unfold clt, nogt in *.
+      destruct (cmp f y); [discriminate E | reflexivity | contradiction Hfy; reflexivity].
+  Qed.
+
+  Lemma sortdedupe_strict : forall l, StronglySorted clt (dedupe cmp (isort cmp l)).
+  Proof.
+    intro l. apply Sorted_StronglySorted; [intros x y z; apply clt_trans|].
+    pose proof (isort_sorted' l) as Hs. destruct (isort cmp l) as [|f r]; [constructor|]. simpl. apply dedupe_from_strict. exact Hs.
+  Qed.
+
+  Lemma sortdedupe_covers : forall l, covers l (dedupe cmp (isort cmp l)) /\ incl (dedupe cmp (isort cmp l)) l.
+  Proof.
+    intro l. split.
+    - intros x Hx. assert (Hx' : In x (isort cmp l)) by (apply (Permutation_in x (Permutation_sym (isort_perm cmp l)) Hx)).
+      destruct (dedupe_cover cmp _ x Hx') as [y [Hy [->|Ey]]].
+      + exists x. split; [exact Hy | apply (ceq_refl cmp L)].
+      + exists y. split; [exact Hy | apply (ceq_sym cmp L); exact Ey].
+    - intros x Hx. apply (Permutation_in x (isort_perm cmp l)). apply (dedupe_incl cmp _ x Hx).
+  Qed.
+
+  (* two strictly increasing lists covering each other are pointwise comparator-equal *)
+  Lemma strict_canon : forall U W, StronglySorted clt U -> StronglySorted clt W -> covers U W -> covers W U -> Forall2 (ceq cmp) U W.
+  Proof.
+    induction U as [|x U IH]; intros W SU SW CU CW.
+    - destruct W as [|y W]; [constructor|]. destruct (CW y (or_introl eq_refl)) as [z [[] _]].
+    - destruct W as [|y W]; [destruct (CU x (or_introl eq_refl)) as [z [[] _]]|].
+      inversion SU as [|? ? SU' HxU]; subst. inversion SW as [|? ? SW' HyW]; subst.
+      rewrite Forall_forall in HxU, HyW.
+      assert (Hxy : ceq cmp x y).
+      { destruct (cmp x y) eqn:E; [exact E | |].
+        - (* x < y: x is covered by some y_j >= y *)
+          exfalso. destruct (CU x (or_introl eq_refl)) as [yj [Hyj Ej]]. destruct Hyj as [<-|Hyj].
+          + apply (clt_irrefl x y Ej). exact E.
+          + apply (clt_irrefl x yj Ej). apply (clt_trans x y yj); [exact E | apply HyW; exact Hyj].
+        - exfalso. assert (Eyx : clt y x) by (apply (cmp_gt_lt cmp L); exact E).
+          destruct (CW y (or_introl eq_refl)) as [xi [Hxi Ei]]. destruct Hxi as [<-|Hxi].
+          + apply (clt_irrefl y x Ei). exact Eyx.
+          + apply (clt_irrefl y xi Ei). apply (clt_trans y x xi); [exact Eyx | apply HxU; exact Hxi]. }
+      constructor; [exact Hxy|]. apply IH; try assumption.
+      + intros x' Hx'. destruct (CU x' (or_intror Hx')) as [yj [Hyj Ej]]. destruct Hyj as [<-|Hyj]; [|exists yj; auto].
+        exfalso. apply (clt_irrefl x x'); [|apply HxU; exact Hx'].
+        apply (ceq_trans cmp L x y x' Hxy). apply (ceq_sym cmp L). exact Ej.
+      + intros y' Hy'. destruct (CW y' (or_intror Hy')) as [xi [Hxi Ei]]. destruct Hxi as [<-|Hxi]; [|exists xi; auto].
+        exfalso. apply (clt_irrefl y y'); [|apply HyW; exact Hy'].
+        apply (ceq_trans cmp L y x y'); [apply (ceq_sym cmp L); exact Hxy | apply (ceq_sym cmp L); exact Ei].
+  Qed.
+
+  Lemma covers_trans : forall u v w, covers u v -> covers v w -> covers u w.
+  Proof.
+    intros u v w H1 H2 x Hx. destruct (H1 x Hx) as [y [Hy Exy]]. destruct (H2 y Hy) as [z [Hz Eyz]].
+    exists z. split; [exact Hz | apply (ceq_trans cmp L x y z); assumption].
+  Qed.
+
+  Lemma covers_incl : forall u w, incl u w -> covers u w.
+  Proof. intros u w Hi x Hx. exists x. split; [apply Hi; exact Hx | apply (ceq_refl cmp L)]. Qed.
+
+  (* the set lemma *)
+  Theorem sortdedupe_set : forall u w, covers u w -> covers w u ->
+                                       Forall2 (ceq cmp) (dedupe cmp (isort cmp u)) (dedupe cmp (isort cmp w)).
+  Proof.
+    intros u w Cuw Cwu. destruct (sortdedupe_covers u) as [Cu Iu]. destruct (sortdedupe_covers w) as [Cw Iw].
+    apply strict_canon; try apply sortdedupe_strict.
+    - apply (covers_trans _ u); [apply covers_incl; exact Iu|]. apply (covers_trans _ w); assumption.
+    - apply (covers_trans _ w); [apply covers_incl; exact Iw|]. apply (covers_trans _ u); assumption.
+  Qed.
+End Canon.
